@@ -64,3 +64,16 @@ CHECKS["C10"] = {
         _sub("TestC10_Reclaim", 1000, 60000, sq=16, st=16),
     ],
 }
+
+CHECKS["C11"] = {
+    "level": "exploration",
+    "subs": [
+        _sub("TestC11_Versions", 2000, 60000, sq=16, st=16),
+    ],
+}
+CHECKS["C12"] = {
+    "level": "fault_enumeration",
+    "subs": [
+        _sub("TestC12_Changes", 2000, 60000, sq=16, st=16),
+    ],
+}
